@@ -283,6 +283,10 @@ class Hooks:
     def may_raise(self, callee_def: Optional[Def], node: ast.Call, st: State) -> List[Def]:
         return []
 
+    def with_value(self, interp: 'Interp', ctx: AVal, node, st: State) -> Optional[AVal]:
+        """the value bound by `with <ctx> as name` (None: an opaque value derived from ctx)"""
+        return None
+
     def inline_class(self, cd: ClassDef, st: State) -> bool:
         """construct instances of this class by running its __init__ abstractly"""
         return False
@@ -699,9 +703,11 @@ class Interp:
         def enter(v, s2):
             s2.trace.append(Event('with-enter', v, item.context_expr, s2.frame.func))
             if item.optional_vars is not None:
-                self.assign_target(item.optional_vars, Sym('with', origin=('with', v), node=item.context_expr,
-                                                           cls=getattr(v, 'cls', None) if isinstance(v, Sym) else None),
-                                   s2)
+                bound = self.hooks.with_value(self, v, item.context_expr, s2)
+                if bound is None:
+                    bound = Sym('with', origin=('with', v), node=item.context_expr,
+                                cls=getattr(v, 'cls', None) if isinstance(v, Sym) else None)
+                self.assign_target(item.optional_vars, bound, s2)
             outs = self.exec_with(s, idx + 1, s2)
             for o in outs:
                 o.st.trace.append(Event('with-exit', (v, o.kind), item.context_expr, o.st.frame.func))
@@ -1385,6 +1391,12 @@ class Interp:
         sequence that is built and consumed in the analysed code is known, not guessed"""
         if kwargs:
             return None
+        if isinstance(cdef, External) and cdef.dotted == 'builtins.enumerate' and 1 <= len(args) <= 2:
+            items = self.concrete_items(args[0])
+            start = args[1] if len(args) == 2 else K(0)
+            if items is not None and not isinstance(args[0], K) and isinstance(start, K) and isinstance(start.v, int):
+                return [('val', ListVal([ListVal([K(start.v + i), x], True) for i, x in enumerate(items)]), st)]
+            return None
         if isinstance(cdef, External) and cdef.dotted in ('builtins.len', 'builtins.tuple', 'builtins.list'):
             name = cdef.dotted.split('.')[1]
             if name != 'len' and not args:
@@ -1674,6 +1686,8 @@ class Interp:
         return False
 
     def compare(self, op, l: AVal, r: AVal, st: State, test):
+        if getattr(self.hooks, 'record_comparisons', False):
+            st.trace.append(Event('cmp', (op, l, r), test, st.frame.func))
         neg = isinstance(op, (ast.IsNot, ast.NotEq, ast.NotIn))
         if isinstance(op, (ast.Is, ast.IsNot, ast.Eq, ast.NotEq)):
             # None tests
